@@ -312,6 +312,16 @@ func (w *cliWorld) lateOpsProbe() {
 			return
 		}
 	}
+	// Close on a client that has already stopped returns (and closes nothing again)
+	again := &closeAct{Invoke: -1, Return: -1}
+	r.Sim.Spawn("z-close-again", func() { w.doClose(again) })
+	if !r.RunQ() {
+		return
+	}
+	if !again.Done {
+		r.Fail("op-never-returned", "a second Close, on the stopped client, has not returned")
+		return
+	}
 	if w.peerSeen != before || w.cEnd.NSend != sendsBefore {
 		r.Fail("transmitted-after-stop", "operations on a stopped client transmitted %d records", w.cEnd.NSend-sendsBefore)
 	}
